@@ -347,6 +347,30 @@ func Reenter(opts []cat.Opts, cb bool) []*cat.Catalog {
 	return out
 }
 
+// DeepCycle is the motif "a cycle that only a deep scope can see, closed from above": on the
+// chain r - a - b, c2 (given to a or b) builds T1 from T0 and c3 (given to the root, or exported
+// from a) builds T0 from T1; c1 is an unrelated registration that may come at any moment, as may
+// the creation of the scopes. Whichever of c2 / c3 comes last must be rejected (or, deferred,
+// the Invoke in the deep scope must report the cycle), whenever the scopes were created.
+func DeepCycle(opts []cat.Opts, cb bool) []*cat.Catalog {
+	var out []*cat.Catalog
+	for _, s2 := range []string{"a", "b"} {
+		for _, p3 := range []Place{{"r", false}, {"a", true}, {"a", false}} {
+			for _, s1 := range []string{"r", "a"} {
+				c := &cat.Catalog{Parent: copyTree(chainTree), Fns: map[string]*cat.Fn{}}
+				c.Fns["c1"] = ctor(Place{s1, false}, nil, one("T5"))
+				c.Fns["c2"] = ctor(Place{s2, false}, []cat.Param{par("T0", "req", 0)}, one("T1"))
+				c.Fns["c3"] = ctor(p3, []cat.Param{par("T1", "req", 0)}, one("T0"))
+				c.Fns["i1"] = inv(par("T0", "req", 0))
+				c.Fns["i2"] = inv(par("T5", "req", 0))
+				c.Note = fmt.Sprintf("deepcycle c2=%s c3=%v c1=%s", s2, p3, s1)
+				out = append(out, finish(c, opts, cb))
+			}
+		}
+	}
+	return out
+}
+
 // DeepTree is the visibility motif on a tree four levels deep with siblings at the bottom
 // (r - a - b - {c, d}) and a sibling of a (e): one private constructor in each of c, d, e and b,
 // one in the root, consumers of every key invoked from every scope; Export on some.
